@@ -8,6 +8,8 @@ def run(ctx):
     ctx.mc("EioSession", "EioSession_fail.cfg")
     ctx.mc("EioSession", "EioSession_dev_noresend.cfg", expect="violates:NothingLost")
     ctx.mc("EioSession", "EioSession_dev_dropinflight.cfg", expect="violates:NothingLost")
+    ctx.mc("EioSession", "EioSession_dev_resendmsgsonly.cfg", expect="violates:HeartbeatNotLost")
+    ctx.mc("EioSession", "EioSession_big.cfg" if ctx.quick else "EioSession_huge.cfg", workers=14)
     out, res = ctx.go_test("c07", "^TestC07$")
     if res is None:
         return
@@ -19,7 +21,7 @@ def run(ctx):
 
 
 META = {
-    "text": "TLC checks EioSession.tla (poll queue, pending and in-flight polls, candidate probe, both swaps under their write locks, asynchronous NOOPs, re-send of queued packets; 2-3 messages each way, one candidate failure): at most once, nothing lost at quiescence, failed upgrade keeps polling, both sides agree; two deviations (no re-send, in-flight poll dropped) must violate. Real sessions carry numbered text/binary traffic both ways across real upgrades, with bursts released exactly while the server or the client stands before its swap (gates), with refused and stalled candidates, and on settled transports; hook records (send under the read lock with the transport used, receive, swap with the re-sent packets) are validated by EioSessionTrace.tla: every reception consumes exactly one pending send, nothing pending at quiescence, no close, final transports as expected.",
+    "text": "TLC checks EioSession.tla (poll queue, pending and in-flight polls, candidate probe, both swaps under their write locks, asynchronous NOOPs, re-send of queued packets; heartbeat PINGs and PONGs travelling in the same streams; 2-3 messages and 1-2 heartbeats each way, one candidate failure, thorough 3/4 messages and 3 heartbeats = 4.0 M distinct states): at most once, nothing lost at quiescence, failed upgrade keeps polling, both sides agree, every heartbeat sent is answered; three deviations (no re-send, in-flight poll dropped, re-send of MESSAGE packets only) must violate. Real sessions carry numbered text/binary traffic both ways across real upgrades, with bursts released exactly while the server or the client stands before its swap (gates), with refused and stalled candidates, and on settled transports; hook records (send under the read lock with the transport used, receive, swap with the re-sent packets) are validated by EioSessionTrace.tla: every reception consumes exactly one pending send, nothing pending at quiescence, no close, final transports as expected.",
     "note": "Trusted: hooks under transportMu; loopback httptest server; WebTransport not exercised in the quick tier.",
     "technique": "TLA+/TLC model checking + trace validation of real upgrades with gated swap points",
     "design_ref": "DESIGN.md 4.7, 5 (C07)",
